@@ -27,6 +27,7 @@ real engine: corpus/C21.cases).
 -/
 import TrustfallModel.Proofs.InterpInvMain
 import TrustfallModel.Proofs.InterpInvWitness
+import TrustfallModel.Proofs.FrontendBridge
 
 namespace TF.C21
 open TF TF.Engine
@@ -87,6 +88,78 @@ example : WFq Witness.F9.ir = true ∧ SchemaOK Witness.F9.S Witness.F9.ir = tru
 
 end TF.C21
 
+/-! ### compiled queries
+
+For the IR of a query the (modelled) frontend accepts, the structural hypothesis `WFq` is a theorem
+(`Bridge.toIR_WFq`, Proofs/FrontendBridgeWFq.lean), and `SchemaOK` follows from `ValidSchemaCore S` (a
+decidable predicate on the schema view alone: what the real `Schema::parse` guarantees, plus pairwise
+distinct parameter names per edge) up to the two sub-clauses about the type a `@recurse` edge
+continues on (`Bridge.RecClausesOK`, Proofs/FrontendBridge.lean: finding F-C21-1 and the clause that
+needs `InheritedParamsSame`; both vacuous for a query without `@recurse`,
+`Bridge.recClausesOK_of_noRecurse`). -/
+namespace TF.C21.Compiled
+open TF TF.Engine TF.Frontend
+open TF.SchemaBridge (ValidSchemaCore)
+
+/-- On an accepted query the engine never makes a call the contract-checking adapter rejects. -/
+theorem calls_ok_compiled {S : SchemaView} {q : Spec.Query} {ir : IRQuery}
+    (h : toIR S q = .ok ir) (D : Data) (args : List (Name × Value))
+    (hV : ValidSchemaCore S = true) (hrec : Bridge.RecClausesOK S ir = true)
+    (hargs : ArgsOK ir args = true) (hconf : Conforms S D = true) :
+    interpret { Env.ofData D args with adapter := checkedAdapter S D } ir =
+      interpret (Env.ofData D args) ir :=
+  calls_ok S D ir args (Bridge.toIR_WFq h)
+    (Bridge.toIR_SchemaOK_core hV h hrec) hargs hconf
+
+/-- … in particular no `contract:` failure. -/
+theorem no_contract_failure_compiled {S : SchemaView} {q : Spec.Query} {ir : IRQuery}
+    (h : toIR S q = .ok ir) (D : Data) (args : List (Name × Value))
+    (hV : ValidSchemaCore S = true) (hrec : Bridge.RecClausesOK S ir = true)
+    (hargs : ArgsOK ir args = true) (hconf : Conforms S D = true)
+    (s : String)
+    (hp : interpret { Env.ofData D args with adapter := checkedAdapter S D } ir = .panic s) :
+    isContractSite s = false :=
+  no_contract_failure S D ir args (Bridge.toIR_WFq h)
+    (Bridge.toIR_SchemaOK_core hV h hrec) hargs hconf s hp
+
+/-- `{ R0 { s @output(name: "o0")
+          e0 @optional { e0 @fold @transform(op: "count") @filter(op: "=", value: ["$v1"]) } } }`
+— the query of the F-9 regression world (`Witness.F9`). -/
+def exQuery : Spec.Query :=
+  ⟨"R0", [], .mk none [
+    .prop "s" [.output "o0"],
+    .edge "e0" [] .optional (.mk none [
+      .edge "e0" [] (.fold [.countFilter (.bin .equals) (.var "v1")]) (.mk none [])])]⟩
+
+def accepted : M IRQuery → Bool
+  | .ok _ => true
+  | .error _ => false
+
+def getIR : M IRQuery → IRQuery
+  | .ok ir => ir
+  | .error _ => default
+
+theorem ok_getIR {r : M IRQuery} (h : accepted r = true) : r = .ok (getIR r) := by
+  cases r with
+  | ok ir => rfl
+  | error e => simp [accepted] at h
+
+/-- the IR the frontend model compiles the example query to, over the schema of `Witness.F9` -/
+def exIR : IRQuery := getIR (toIR Witness.F9.S exQuery)
+
+theorem ex_compiles : toIR Witness.F9.S exQuery = .ok exIR := ok_getIR (by decide +kernel)
+
+/-- Non-vacuity: the example query is accepted and its IR meets all remaining hypotheses. -/
+example : interpret { Env.ofData Witness.F9.D Witness.F9.args with
+      adapter := checkedAdapter Witness.F9.S Witness.F9.D } exIR =
+    interpret (Env.ofData Witness.F9.D Witness.F9.args) exIR :=
+  calls_ok_compiled ex_compiles _ _ (by decide +kernel)
+    (Bridge.recClausesOK_of_noRecurse _ (by decide +kernel)) (by decide +kernel) (by decide +kernel)
+
+end TF.C21.Compiled
+
 #print axioms TF.C21.calls_ok
 #print axioms TF.C21.no_contract_failure
 #print axioms TF.C21.calls_ok_full_false
+#print axioms TF.C21.Compiled.calls_ok_compiled
+#print axioms TF.C21.Compiled.no_contract_failure_compiled
